@@ -179,6 +179,13 @@ class CGenerator:
             return "(" + self.visit(n) + ")"
         return self.visit(n)
 
+    def _visit_constant_expr(self, n: c_ast.Node) -> str:
+        """A constant expression is a conditional expression: an assignment
+        needs parentheses there, like a comma expression."""
+        if isinstance(n, c_ast.Assignment):
+            return "(" + self.visit(n) + ")"
+        return self._visit_expr(n)
+
     def _visit_expr(self, n: c_ast.Node) -> str:
         match n:
             case c_ast.InitList():
@@ -200,7 +207,7 @@ class CGenerator:
             else self._generate_decl(n)
         )
         if n.bitsize:
-            s += " : " + self._visit_expr(n.bitsize)
+            s += " : " + self._visit_constant_expr(n.bitsize)
         if n.init:
             s += " = " + self._visit_expr(n.init)
         return s
@@ -240,7 +247,7 @@ class CGenerator:
         return self._generate_struct_union_enum(n, name="enum")
 
     def visit_Alignas(self, n: c_ast.Alignas) -> str:
-        return "_Alignas({})".format(self._visit_expr(n.alignment))
+        return "_Alignas({})".format(self._visit_constant_expr(n.alignment))
 
     def visit_Enumerator(self, n: c_ast.Enumerator) -> str:
         if not n.value:
@@ -252,7 +259,7 @@ class CGenerator:
             return "{indent}{name} = {value},\n".format(
                 indent=self._make_indent(),
                 name=n.name,
-                value=self._visit_expr(n.value),
+                value=self._visit_constant_expr(n.value),
             )
 
     def visit_FuncDef(self, n: c_ast.FuncDef) -> str:
@@ -357,7 +364,7 @@ class CGenerator:
 
     def visit_StaticAssert(self, n: c_ast.StaticAssert) -> str:
         s = "_Static_assert("
-        s += self._visit_expr(n.cond)
+        s += self._visit_constant_expr(n.cond)
         if n.message:
             s += ","
             s += self.visit(n.message)
@@ -370,7 +377,7 @@ class CGenerator:
         return s
 
     def visit_Case(self, n: c_ast.Case) -> str:
-        s = "case " + self._visit_expr(n.expr) + ":\n"
+        s = "case " + self._visit_constant_expr(n.expr) + ":\n"
         for stmt in n.stmts:
             s += self._generate_stmt(stmt, add_indent=True)
         return s
@@ -405,7 +412,7 @@ class CGenerator:
             if isinstance(name, c_ast.ID):
                 s += "." + name.name
             else:
-                s += "[" + self._visit_expr(name) + "]"
+                s += "[" + self._visit_constant_expr(name) + "]"
         s += " = " + self._visit_expr(n.expr)
         return s
 
